@@ -11,6 +11,14 @@ E1 `subst`      : every single-character substitution (95-character descriptor a
                   of body and checksum of several descriptors must be rejected.  HDPublicKey.child is
                   memoised by the harness in this engine only (see _Memo).
 E1 `subst-real` : the same sweep with the library completely untouched (no memoisation) on fewer descriptors.
+E1 `spelling`   : non-Core spellings of fingerprint / origin path accepted by the constructor must stay self-consistent
+                  (own text accepted and reproduced by parse, fingerprint printed lower case as Core does).
+E2 `history`    : all get_address call sequences (length 3) on one object and interleaved over objects sharing xpubs.
+E1 `keyrecord`  : parse_full/partial/any_key_record on all version kinds, and string -> record -> descriptor.
+E1 `ties`       : one xpub at several account indexes: every supply order, address invariance.
+E1 `slipmix`    : full product of per-record SLIP-132 kinds.   E1 `xpubfields`: boundary depth / child number / parent fp.
+E1 `checksum`   : calc_core_checksum on every short string.    E1 `index`: byte boundaries of account x address index.
+E1 `ctor-checksum`: the constructor's checksum argument.
 """
 import itertools
 
@@ -314,14 +322,14 @@ def gen_address(tier, seed):
     return cases
 
 
-def run_address(case):
+def run_address(case, ename="address"):
     from buidl.descriptor import P2WSHSortedMulti
 
     res = Res()
     w, index, route = case["w"], case["index"], case["route"]
     m, recs, tag = w["m"], w["recs"], w["tag"]
     n = len(recs)
-    vc = {"engine": "address", "case": case}
+    vc = {"engine": ename, "case": case}
     supplied = [recs[i] for i in case["perm"]] if case["perm"] else recs
     canon = descref.norm_records(recs)
     if route == "ctor":
@@ -333,7 +341,7 @@ def run_address(case):
         body = descref.body_text(m, held)
         d = attempt(P2WSHSortedMulti.parse, body + "#" + descref.descriptor_checksum(body))
     if isinstance(d, Rejected):
-        res.violation(f"C16/address/{route}-rejected", vc, repr(d), "descriptor object", "valid wallet rejected")
+        res.violation(f"C16/{ename}/{route}-rejected", vc, repr(d), "descriptor object", "valid wallet rejected")
         return res
     got = {}
     for branch in (0, 1):
@@ -359,7 +367,7 @@ def run_address(case):
             elif a == descref.segwit_v0_address(descref.HRP["mainnet" if w["net"] == "testnet" else "testnet"], descref.sha256(descref.multisig_script(m, sorted(keys)))):
                 hyp = "wrong-network"
             res.violation(
-                f"C16/address/{bname}-{hyp}", vc, a, exp,
+                f"C16/{ename}/{bname}-{hyp}", vc, a, exp,
                 f"get_address({index}, is_change={bool(branch)}) is not the P2WSH of the {m}-of-{n} script over the sorted child keys",
             )
         else:
@@ -372,14 +380,14 @@ def run_address(case):
             )
     if len(got) == 2 and not isinstance(got[0], Rejected) and not isinstance(got[1], Rejected):
         if got[0] == got[1]:
-            res.violation("C16/address/receive==change", vc, got, "different addresses", "receive and change address coincide at the same index")
+            res.violation(f"C16/{ename}/receive==change", vc, got, "different addresses", "receive and change address coincide at the same index")
         else:
             res.ok("receive!=change")
         # no receive address of the index alphabet is a change address of the alphabet (reference side for the others)
         others = IDX_FULL
         clash = [j for j in others if descref.address(m, recs, 1, j) == got[0] or descref.address(m, recs, 0, j) == got[1]]
         if clash:
-            res.violation("C16/address/branches-overlap", vc, {"index": index, "clash_with": clash}, "disjoint", "a receive address equals a change address at another index")
+            res.violation(f"C16/{ename}/branches-overlap", vc, {"index": index, "clash_with": clash}, "disjoint", "a receive address equals a change address at another index")
         else:
             res.ok("branches-disjoint-over-index-alphabet")
     return res
@@ -437,7 +445,8 @@ def subst_wallets(tier, seed, real):
     s3 = ("2of3-testnet-mixedstyle-acct1", make_wallet(seed, "A", 2, 3, "testnet", "1", "std", "mixedstyle"))
     if real:
         return [s1] if tier == "quick" else [s1, s2]
-    out = [s1, s2, s3]
+    s4 = ("2of2-testnet-h-records-in-descending-xpub-order", dict(make_wallet(seed, "A", 2, 2, "testnet", "0", "std", "h"), order="reversed"))
+    out = [s1, s2, s3, s4]
     if tier == "thorough":
         out += [
             ("2of2-testnet-long-mixedacct", make_wallet(seed, "B", 2, 2, "testnet", "mixed", "std", "long")),
@@ -448,11 +457,18 @@ def subst_wallets(tier, seed, real):
     return out
 
 
+def subst_order(w):
+    """Order in which the records appear in the swept text: canonical, or (order='reversed') descending
+    xpub order, i.e. a well-formed descriptor as exported by software that does not sort the records."""
+    canon = descref.norm_records(w["recs"])
+    return list(reversed(canon)) if w.get("order") == "reversed" else canon
+
+
 def gen_subst(real):
     def gen(tier, seed):
         cases = []
         for wid, w in subst_wallets(tier, seed, real):
-            text = expected_state(w["m"], w["recs"])["str"]
+            text = expected_state(w["m"], w["recs"], subst_order(w))["str"]
             for pos in range(len(text)):
                 cases.append({"wid": wid, "w": w, "pos": pos})
         return cases
@@ -468,8 +484,8 @@ def run_subst(real):
 
         res = Res()
         w, pos = case["w"], case["pos"]
-        canon = descref.norm_records(w["recs"])
-        exp = expected_state(w["m"], w["recs"])
+        canon = subst_order(w)
+        exp = expected_state(w["m"], w["recs"], canon)
         text = exp["str"]
         region = descref.regions(w["m"], canon)[pos]
         vc = {"engine": ename, "case": case}
@@ -517,6 +533,621 @@ def run_subst(real):
     return run
 
 
+# =============================================================================== phase-2 engines
+# Shared builders -----------------------------------------------------------------------------
+BOUNDARY = [255, 256, 65535, 65536, 2**24 - 1, 2**24]  # byte boundaries of the 4-byte child index
+KINDS = ["std", "p2sh-segwit", "segwit", "p2sh-multisig", "multisig"]
+
+
+def build_wallet(seed, pool_id, m, net, idxs, kinds=None, paths=None, hdr=None, key_ids=None, xfps=None, tag=""):
+    """Wallet with explicit per-record account index / SLIP-132 kind / origin path / pool key id
+    (a key id may repeat: same xpub at several account indexes) and optional xpub header fields
+    hdr = {"depth", "pfp" (hex), "child"} shared by all records."""
+    n = len(idxs)
+    pool = key_pool(seed, pool_id)
+    key_ids = key_ids or list(range(n))
+    coin = 0 if net == "mainnet" else 1
+    recs = []
+    for i in range(n):
+        k = pool[key_ids[i]]
+        v = SLIP[kinds[i] if kinds else "std"][net]
+        if hdr:
+            xpub = descref.xpub_encode(v, hdr["depth"], bytes.fromhex(hdr["pfp"]), hdr["child"], k["cc"], k["point"])
+        else:
+            xpub = _xpub(k, v)
+        recs.append({"xfp": xfps[i] if xfps else k["xfp"], "path": paths[i] if paths else f"m/48h/{coin}h/0h/2h", "xpub": xpub, "idx": idxs[i]})
+    return {"m": m, "recs": recs, "net": net, "tag": tag, "slip": "slip132" if kinds and set(kinds) != {"std"} else "std"}
+
+
+_REFADDR = {}
+
+
+def ref_address(w, branch, index):
+    """Reference address, remembered per process (pure function of the wallet)."""
+    k = (w["m"], tuple((r["xpub"], r["idx"]) for r in w["recs"]), branch, index)
+    if k not in _REFADDR:
+        _REFADDR[k] = descref.address(w["m"], w["recs"], branch, index)
+    return _REFADDR[k]
+
+
+def ref_text(w, ordered=None):
+    o = descref.norm_records(w["recs"]) if ordered is None else ordered
+    body = descref.body_text(w["m"], o)
+    return body + "#" + descref.descriptor_checksum(body)
+
+
+# ------------------------------------------------------------------------------- engine: spelling
+SPELL_XFPS = ["a1b2c3d4", "0f9e8d7c", "00c0ffee"]
+SPELL_XC = ["lower", "upper", "mixed"]
+SPELL_MK = ["h", "'", "H"]
+SPELL_NZ = ["none", "double-slash", "lead-space", "trail-space", "capital-m"]
+
+
+def _spell_xfp(x, xc):
+    if xc == "lower":
+        return x
+    if xc == "upper":
+        return x.upper()
+    out, k = "", 0
+    for c in x:  # every other hex letter upper-cased
+        if c.isalpha():
+            out += c.upper() if k % 2 == 0 else c
+            k += 1
+        else:
+            out += c
+    return out
+
+
+def _spell_path(p, mk, nz):
+    p = p.replace("h", mk)
+    if nz == "double-slash":
+        p = p.replace("m/", "m//", 1)
+    elif nz == "lead-space":
+        p = " " + p
+    elif nz == "trail-space":
+        p = p + " "
+    elif nz == "capital-m":
+        p = "M" + p[1:]
+    return p
+
+
+def gen_spelling(tier, seed):
+    cases = []
+    shapes = [("deriv", 1, 2, "testnet")] + ([("deriv", 2, 3, "mainnet")] if tier == "thorough" else []) + [("root", 1, 2, "testnet")]
+    for base, m, n, net in shapes:
+        coin = 0 if net == "mainnet" else 1
+        paths = [f"m/48h/{coin}h/0h/2h" if base == "deriv" else "m"] * n
+        w = build_wallet(seed, "A", m, net, [0] * n, paths=paths, xfps=SPELL_XFPS[:n], tag=f"{m}of{n}/{net}/origin={base}")
+        for xc in SPELL_XC:
+            for mk in SPELL_MK if base == "deriv" else ["h"]:
+                for nz in SPELL_NZ:
+                    if base == "root" and nz == "double-slash":
+                        continue
+                    cases.append({"w": w, "xc": xc, "mk": mk, "nz": nz})
+    return cases
+
+
+def _spell_eval(P2, w, xc, mk, nz):
+    """Outcome class of one spelling variant: 'ctor-rejects' | 'ok' | a failure class."""
+    m = w["m"]
+    supplied = [dict(r, xfp=_spell_xfp(r["xfp"], xc), path=_spell_path(r["path"], mk, nz)) for r in w["recs"]]
+    d = attempt(P2, m, lib_records(supplied))
+    if isinstance(d, Rejected):
+        return "ctor-rejects", None
+    gs = attempt(state_of, d)
+    if isinstance(gs, Rejected):
+        return "state-unreadable", repr(gs)
+    body, _, chk = gs["str"].partition("#")
+    if descref.descriptor_checksum(body) != chk or gs["checksum"] != chk:
+        return "checksum-not-core", gs["str"]
+    p = attempt(P2.parse, gs["str"])
+    if isinstance(p, Rejected):
+        return "own-text-rejected", gs["str"]
+    ps = attempt(state_of, p)
+    if ps != gs:
+        return "own-text-not-reproduced", {"constructed": gs["key_records"], "parsed": ps if isinstance(ps, Rejected) else ps["key_records"]}
+    if nz == "none" and mk != "H":
+        # the spelling differs from Core's printed form in the fingerprint case only: Core prints lower case
+        core = expected_state(m, [dict(r, path=_spell_path(r["path"], mk, "none")) for r in w["recs"]])
+        if gs != core:
+            return "not-core-form", gs["str"]
+    return "ok", None
+
+
+def run_spelling(case):
+    from buidl.descriptor import P2WSHSortedMulti as P2
+
+    res = Res()
+    w, xc, mk, nz = case["w"], case["xc"], case["mk"], case["nz"]
+    vc = {"engine": "spelling", "case": case}
+    devs = ([("xfp-case", "xc")] if xc != "lower" else []) + ([("marker-H", "mk")] if mk == "H" else []) + ([("path-" + nz, "nz")] if nz != "none" else [])
+    with _Memo():
+        out, detail = _spell_eval(P2, w, xc, mk, nz)
+        if out == "ok" or (out == "ctor-rejects" and devs):
+            res.ok(out if devs else "clean-spelling-ok", nontrivial=(w["tag"], xc, mk, nz) if devs else None,
+                   sample={"wallet": w["tag"], "xfp": xc, "marker": mk, "path": nz, "outcome": out} if devs and out == "ok" else None)
+            return res
+        if not devs:
+            res.violation(f"C16/spelling/clean-{out}", vc, detail, "accepted, Core text, reproduced by parse()", "key records in Core's own spelling are not handled")
+            return res
+        culprit = devs[0][0] if len(devs) == 1 else "combination"
+        if len(devs) > 1:
+            for name, dim in devs:  # which single deviation alone gives the same failure?
+                o1, _ = _spell_eval(P2, w, xc if dim == "xc" else "lower", mk if dim == "mk" else "h", nz if dim == "nz" else "none")
+                if o1 == out:
+                    culprit = name
+                    break
+        res.violation(
+            f"C16/spelling/{out}/{culprit}", vc, detail, "constructor rejects, or its text is accepted and reproduced by parse() (and is Core's lower-case form for fingerprints)",
+            f"key records spelt with xfp={xc}, hardened marker {mk!r}, path noise {nz}: the constructor accepts them but {out}",
+        )
+    return res
+
+
+# ------------------------------------------------------------------------------- engine: history (E2)
+def hist_setup(tier, seed, kind):
+    """-> (object specs, op alphabet, depth). An object spec is (wallet, route)."""
+    if kind == "single":
+        w = make_wallet(seed, "A", 2, 3, "testnet", "0", "std", "h")
+        return {"A": (w, "ctor")}, [("A", i, b) for i in (0, 1, MAXI) for b in (0, 1)], 3
+    if kind == "single-parse":
+        w = make_wallet(seed, "A", 2, 3, "mainnet", "mixed", "std", "h")
+        return {"A": (w, "parse")}, [("A", i, b) for i in (0, 1, MAXI) for b in (0, 1)], 3
+    if kind == "multi":
+        w0 = make_wallet(seed, "A", 2, 3, "testnet", "0", "std", "h")
+        w1 = make_wallet(seed, "A", 2, 3, "testnet", "1", "std", "h")
+        return {"A": (w0, "ctor"), "B": (w1, "ctor"), "P": (w0, "parse")}, [(o, i, b) for o in ("A", "B", "P") for i in (0, 1) for b in (0, 1)], 3 if tier == "quick" else 4
+    if kind == "real":
+        w = make_wallet(seed, "A", 1, 1, "testnet", "0", "std", "h")
+        return {"A": (w, "ctor")}, [("A", i, b) for i in (0, 1) for b in (0, 1)], 2 if tier == "quick" else 3
+    raise ValueError(kind)
+
+
+def gen_history(tier, seed):
+    cases = []
+    for kind in ["single", "multi", "real"] + (["single-parse"] if tier == "thorough" else []):
+        _, ops, depth = hist_setup(tier, seed, kind)
+        for first in ops:
+            if kind == "multi" and depth == 4:
+                for second in ops:
+                    cases.append({"kind": kind, "prefix": [list(first), list(second)]})
+            else:
+                cases.append({"kind": kind, "prefix": [list(first)]})
+    return cases
+
+
+def run_history(case, tier="quick", seed=0):
+    from buidl.descriptor import P2WSHSortedMulti as P2
+
+    res = Res()
+    kind, prefix = case["kind"], [tuple(o) for o in case["prefix"]]
+    specs, ops, depth = hist_setup(tier, seed, kind)
+    vc = {"engine": "history", "case": case}
+
+    def fresh():
+        out = {}
+        for name, (w, route) in specs.items():
+            if route == "ctor":
+                out[name] = P2(w["m"], lib_records(w["recs"]))
+            else:  # records in descending xpub order: the object holds them unsorted
+                out[name] = P2.parse(ref_text(w, list(reversed(descref.norm_records(w["recs"])))))
+        return out
+
+    reported = set()
+    n_ok = n_nt = 0
+    with (_NoMemo() if kind == "real" else _Memo()):
+        for rest in itertools.product(ops, repeat=depth - len(prefix)):
+            seq = prefix + list(rest)
+            objs = attempt(fresh)
+            if isinstance(objs, Rejected):
+                res.violation(f"C16/history/{kind}/objects-rejected", vc, repr(objs), "descriptor objects", "valid wallet rejected")
+                return res
+            exps = []
+            for k, (o, index, branch) in enumerate(seq):
+                exp = ref_address(specs[o][0], branch, index)
+                a = attempt(objs[o].get_address, index, bool(branch))
+                res.transitions += 1
+                if a != exp:
+                    hyp = "rejected" if isinstance(a, Rejected) or not a else "stale-answer-of-an-earlier-call" if a in exps else "fresh-object-wrong" if k == 0 else "wrong-after-history"
+                    if hyp not in reported:
+                        reported.add(hyp)
+                        res.violation(
+                            f"C16/history/{kind}/{hyp}", {"engine": "history", "case": case, "sequence": [list(x) for x in seq], "call": k}, a, exp,
+                            f"call {k} of the sequence (object, index, branch) on {'one object' if len(specs) == 1 else 'objects sharing cosigner xpubs'}: get_address differs from the reference",
+                        )
+                    break
+                exps.append(exp)
+                n_ok += 1
+                n_nt += 1 if k else 0
+    res.bulk("address==ref(after history)", n_ok, n_nt)
+    # distinct histories below this case's prefix (each was extended by every operation)
+    res.states += sum(len(ops) ** j for j in range(0, depth - len(prefix) + 1))
+    if n_nt and not reported:
+        res.samples.append({"kind": kind, "prefix": case["prefix"], "sequences": len(ops) ** (depth - len(prefix)), "depth": depth})
+    return res
+
+
+# ------------------------------------------------------------------------------- engine: keyrecord
+KR_COMBOS = [("h", 0), ("apos", 0), ("root", 0), ("long", 0), ("mixedstyle", 0), ("h", 1), ("h", 5), ("h", MAXI - 1), ("h", MAXI)]
+
+
+def gen_keyrecord(tier, seed):
+    cases = []
+    nkeys = 6 if tier == "thorough" else 2
+    keys = key_pool(seed, "A")
+    for net in ("testnet", "mainnet"):
+        coin = 0 if net == "mainnet" else 1
+        for kind in KINDS:
+            for i in range(nkeys):
+                for path, idx in KR_COMBOS:
+                    r = {"xfp": keys[i]["xfp"], "path": PATHS[path](coin, i), "xpub": _xpub(keys[i], SLIP[kind][net]), "idx": idx}
+                    cases.append({"kind": "record", "r": r, "net": net, "slip": "std" if kind == "std" else "slip132", "any": path == "h" and idx == 0})
+        # string -> key record -> constructor (the coordinator flow), SLIP-132 keys of one kind or mixed kinds
+        n = 3
+        assigns = [[k] * n for k in KINDS] + [KINDS[j : j + n] for j in range(len(KINDS) - n + 1)]
+        for a in assigns:
+            for m in (2,) if tier == "quick" else (1, 2, 3):
+                coinp = [PATHS["mixedstyle"](coin, i) for i in range(n)]
+                w = build_wallet(seed, "A", m, net, ACCTS["mixed"][:n], kinds=a, paths=coinp, tag=f"{m}of{n}/{net}/flow/kinds={','.join(a)}")
+                cases.append({"kind": "flow", "w": w})
+    return cases
+
+
+def run_keyrecord(case):
+    from buidl import descriptor as D
+
+    res = Res()
+    vc = {"engine": "keyrecord", "case": case}
+    if case["kind"] == "flow":
+        w = case["w"]
+        parsed = attempt(lambda: [D.parse_full_key_record(descref.record_text(r)) for r in w["recs"]])
+        if isinstance(parsed, Rejected):
+            res.violation(f"C16/keyrecord/flow-record-rejected/{w['slip']}", vc, repr(parsed), "key records", "parse_full_key_record rejects a valid key record string")
+            return res
+        exp = expected_state(w["m"], w["recs"])
+        for perm in itertools.permutations(range(len(parsed))):
+            d = attempt(D.P2WSHSortedMulti, w["m"], [parsed[i] for i in perm])
+            got = d if isinstance(d, Rejected) else attempt(state_of, d)
+            if got != exp:
+                res.violation(
+                    f"C16/keyrecord/flow-{diff_class(got, exp)}/{w['slip']}", {"engine": "keyrecord", "case": case, "perm": list(perm)}, got if isinstance(got, Rejected) else got["str"], exp["str"],
+                    "descriptor built from parse_full_key_record() outputs differs from the reference",
+                )
+                return res
+            res.ok("string->record->descriptor==ref", nontrivial=(w["tag"], perm))
+        return res
+    r, net, slip = case["r"], case["net"], case["slip"]
+    full_s = descref.record_text(r)
+    part_s = full_s[: -len("/%d/*" % r["idx"])]
+    exp_full = {"xfp": r["xfp"], "path": r["path"], "xpub_parent": r["xpub"], "account_index": r["idx"], "network": net, "xpub_child": descref.ckd_pub_xpub(r["xpub"], r["idx"])}
+    exp_part = {"xfp": r["xfp"], "path": r["path"], "xpub": r["xpub"], "network": net}
+
+    def compare(fn_name, fn, s, exp):
+        got = attempt(fn, s)
+        if isinstance(got, Rejected) or not isinstance(got, dict):
+            res.violation(f"C16/keyrecord/{fn_name}-rejected/{slip}", {"engine": "keyrecord", "case": case, "string": s}, repr(got), exp, f"{fn_name} rejects a valid key record string")
+            return
+        badf = [k for k in exp if got.get(k) != exp[k]]
+        if badf:
+            res.violation(
+                f"C16/keyrecord/{fn_name}-{badf[0]}/{slip}", {"engine": "keyrecord", "case": case, "string": s}, {k: got.get(k) for k in badf}, {k: exp[k] for k in badf},
+                f"{fn_name} returns a wrong {badf[0]} (child xpub = BIP32 public derivation at the account index, same version bytes)",
+            )
+        else:
+            res.ok(f"{fn_name}==ref", nontrivial=(fn_name, s), sample={"fn": fn_name, "record": s[:30] + "..." + s[-14:], "xpub_child": str(exp.get("xpub_child"))[:16] + "..."} if slip != "std" and fn_name == "full" else None)
+
+    compare("full", D.parse_full_key_record, full_s, exp_full)
+    compare("partial", D.parse_partial_key_record, part_s, exp_part)
+    compare("any(partial)", D.parse_any_key_record, part_s, exp_part)
+    if case["any"]:
+        compare("any(full)", D.parse_any_key_record, full_s, exp_full)
+    return res
+
+
+# ------------------------------------------------------------------------------- engine: ties
+def ties_wallets(tier, seed):
+    out = []
+    for net in ("testnet", "mainnet") if tier == "thorough" else ("testnet",):
+        out.append(build_wallet(seed, "A", 2, net, [0, 2, 0], key_ids=[0, 0, 1], tag=f"2of3/{net}/X@0,X@2,Y@0"))
+        out.append(build_wallet(seed, "A", 1, net, [0, 1], key_ids=[0, 0], tag=f"1of2/{net}/X@0,X@1"))
+        out.append(build_wallet(seed, "A", 2, net, [0, 2, 0], key_ids=[0, 0, 1], kinds=["std", "multisig", "std"], tag=f"2of3/{net}/X@0,Zpub(X)@2,Y@0"))
+        if tier == "thorough":
+            out.append(build_wallet(seed, "A", 3, net, [0, 1, 2, 0], key_ids=[0, 0, 0, 1], tag=f"3of4/{net}/X@0,X@1,X@2,Y@0"))
+    return out
+
+
+def gen_ties(tier, seed):
+    cases = []
+    for w in ties_wallets(tier, seed):
+        for perm in itertools.permutations(range(len(w["recs"]))):
+            for route in ("ctor", "parse") if tier == "thorough" else ("ctor",):
+                cases.append({"w": w, "perm": list(perm), "route": route, "index": 1})
+    return cases
+
+
+def run_ties(case):
+    from buidl.descriptor import P2WSHSortedMulti as P2
+
+    res = Res()
+    w, perm, route, index = case["w"], case["perm"], case["route"], case["index"]
+    m, recs = w["m"], w["recs"]
+    vc = {"engine": "ties", "case": case}
+    supplied = [recs[i] for i in perm]
+    std = [dict(r, xpub=descref.xpub_standardise(r["xpub"])) for r in supplied]
+    if route == "ctor":
+        d = attempt(P2, m, lib_records(supplied))
+    else:
+        d = attempt(P2.parse, ref_text(w, std))
+    gs = d if isinstance(d, Rejected) else attempt(state_of, d)
+    if isinstance(gs, Rejected):
+        res.violation(f"C16/ties/{route}-rejected", vc, repr(gs), "descriptor object", "valid wallet (one xpub used at two account indexes) rejected")
+        return res
+    # text: Core checksum of the emitted body; the records are exactly the supplied ones (standardised), ascending by xpub
+    # when built from key records (the order among records with the same xpub is not prescribed)
+    body, _, chk = gs["str"].partition("#")
+    want = sorted((r["xpub"], r["idx"], r["xfp"], r["path"]) for r in std)
+    have = [(k["xpub_parent"], k["account_index"], k["xfp"], k["path"]) for k in gs["key_records"]]
+    xs = [h[0] for h in have]
+    if descref.descriptor_checksum(body) != chk:
+        res.violation("C16/ties/checksum", vc, gs["str"], descref.descriptor_checksum(body), "checksum is not Core's checksum of the emitted descriptor body")
+    elif sorted(have) != want or descref.strict_parse(gs["str"]) is None or (route == "ctor" and xs != sorted(xs)) or (route == "parse" and have != [(r["xpub"], r["idx"], r["xfp"], r["path"]) for r in std]):
+        res.violation("C16/ties/records", vc, gs["str"], want, "the descriptor does not hold exactly the supplied key records (xpub-ascending when built from key records, text order when parsed)")
+    else:
+        res.ok("text-consistent", nontrivial=(w["tag"], tuple(perm), route))
+    p = attempt(P2.parse, gs["str"])
+    ps = p if isinstance(p, Rejected) else attempt(state_of, p)
+    if ps != gs:
+        res.violation("C16/ties/parse-not-reproduced", vc, ps if isinstance(ps, Rejected) else ps["str"], gs["str"], "parse(str(d)) does not reproduce the descriptor")
+    else:
+        res.ok("parse(str(d))==d")
+    got = {}
+    for branch in (0, 1):
+        exp = ref_address(w, branch, index)
+        a = attempt(d.get_address, index, bool(branch))
+        got[branch] = a
+        if a != exp:
+            res.violation(f"C16/ties/{'change' if branch else 'receive'}-address", vc, a, exp, "address differs from the reference P2WSH over the sorted child keys (which is independent of the supply order)")
+        else:
+            res.ok("address==ref(supply-order independent)", nontrivial=(w["tag"], tuple(perm), route, branch))
+    if got[0] == got[1] and not isinstance(got[0], Rejected):
+        res.violation("C16/ties/receive==change", vc, got, "different addresses", "receive and change address coincide")
+    return res
+
+
+# ------------------------------------------------------------------------------- engine: slipmix
+def gen_slipmix(tier, seed):
+    cases = []
+    shapes = [(1, 1), (1, 2), (2, 3)] + ([(2, 4)] if tier == "thorough" else [])
+    for m, n in shapes:
+        for net in ("testnet", "mainnet"):
+            for a in itertools.product(KINDS, repeat=n):
+                w = build_wallet(seed, "A", m, net, ACCTS["mixed"][:n], kinds=list(a), tag=f"{m}of{n}/{net}/kinds={','.join(a)}")
+                cases.append({"w": w})
+    return cases
+
+
+def run_slipmix(case):
+    from buidl.descriptor import P2WSHSortedMulti as P2
+
+    res = Res()
+    w = case["w"]
+    m, recs = w["m"], w["recs"]
+    exp = expected_state(m, recs)
+    base = lib_records(recs)
+    mixed = len({descref.xpub_decode(r["xpub"])["version"] for r in recs}) > 1
+    cnt = 0
+    for perm in itertools.permutations(range(len(recs))):
+        d = attempt(P2, m, [base[i] for i in perm])
+        got = d if isinstance(d, Rejected) else attempt(state_of, d)
+        if got != exp:
+            res.violation(
+                f"C16/slipmix/{'construct' if list(perm) == sorted(perm) else 'order-dependent'}-{diff_class(got, exp)}/{'mixed-kinds' if mixed else 'one-kind'}",
+                {"engine": "slipmix", "case": case, "perm": list(perm)}, got if isinstance(got, Rejected) else got["str"], exp["str"],
+                "descriptor built from key records with per-record SLIP-132 prefixes differs from the reference (xpub/tpub text, Core checksum, canonical order)",
+            )
+            return res
+        cnt += 1
+    res.bulk("construct==ref(all supply orders)", cnt, cnt if w["slip"] != "std" else 0)
+    if mixed and len(recs) == 3:
+        res.samples.append({"wallet": w["tag"], "str": exp["str"][:40] + "..." + exp["str"][-12:]})
+    return res
+
+
+# ------------------------------------------------------------------------------- engine: xpubfields
+XF_DEPTH = [0, 1, 254, 255]
+XF_CHILD = [0, 2**31 - 1, 2**31, 2**32 - 1]
+
+
+def gen_xpubfields(tier, seed):
+    cases = []
+    pfps = ["00000000", "ffffffff", filler(seed, "c16-xf-pfp", 0, 4).hex()]
+    j = 0
+    for depth in XF_DEPTH:
+        for child in XF_CHILD:
+            for pi, pfp in enumerate(pfps):
+                hdr = {"depth": depth, "pfp": pfp, "child": child}
+                for net in ("testnet", "mainnet"):
+                    kindsets = [["std", "std"]] + ([["multisig", "std"]] if pi == 2 or tier == "thorough" else [])
+                    for kinds in kindsets:
+                        coin = 0 if net == "mainnet" else 1
+                        paths = ["m" if depth == 0 else f"m/48h/{coin}h/0h/2h"] * 2
+                        w = build_wallet(seed, "A", 1, net, [0, MAXI - 1], kinds=kinds, paths=paths, hdr=hdr, tag=f"1of2/{net}/depth={depth}/child={child}/pfp={pfp}/kinds={','.join(kinds)}")
+                        addr = tier == "thorough" or (pi == 0 and kinds[0] == "std" and (j % 2 == 0) == (net == "testnet"))
+                        cases.append({"w": w, "hdr": hdr, "addr": addr})
+                j += 1
+    return cases
+
+
+def run_xpubfields(case):
+    from buidl.descriptor import P2WSHSortedMulti as P2
+
+    res = Res()
+    w, hdr = case["w"], case["hdr"]
+    m, recs = w["m"], w["recs"]
+    vc = {"engine": "xpubfields", "case": case}
+    if hdr["depth"] == 255:
+        res.skip("extended key at depth 255: its children cannot be serialised (one-byte depth) and Core refuses to derive from it; not asserted")
+        return res
+    cls = f"depth={hdr['depth']}" if hdr["depth"] in (0, 254) else "child>=2^31" if hdr["child"] >= 2**31 else "plain"
+    exp = expected_state(m, recs)
+    d = attempt(P2, m, lib_records(recs))
+    got = d if isinstance(d, Rejected) else attempt(state_of, d)
+    if got != exp:
+        res.violation(f"C16/xpubfields/construct-{diff_class(got, exp)}/{cls}", vc, got if isinstance(got, Rejected) else got["str"], exp["str"], "descriptor over extended keys with boundary header fields differs from the reference")
+        return res
+    res.ok("construct==ref", nontrivial=("c", w["tag"]))
+    p = attempt(P2.parse, exp["str"])
+    gp = p if isinstance(p, Rejected) else attempt(state_of, p)
+    if gp != exp:
+        res.violation(f"C16/xpubfields/parse-{diff_class(gp, exp)}/{cls}", vc, gp if isinstance(gp, Rejected) else gp["str"], exp["str"], "parse(text) does not reproduce the descriptor over extended keys with boundary header fields")
+    else:
+        res.ok("parse(text)==descriptor", nontrivial=("p", w["tag"]))
+    if case["addr"]:
+        got = {}
+        for branch in (0, 1):
+            exp_a = ref_address(w, branch, 1)
+            a = attempt(d.get_address, 1, bool(branch))
+            got[branch] = a
+            if a != exp_a:
+                res.violation(f"C16/xpubfields/{'change' if branch else 'receive'}-address/{cls}", vc, a, exp_a, "address differs from the reference (it depends on key and chain code only, not on the header fields)")
+            else:
+                res.ok("address==ref", nontrivial=("a", w["tag"], branch))
+        if got[0] == got[1] and not isinstance(got[0], Rejected):
+            res.violation("C16/xpubfields/receive==change", vc, got, "different addresses", "receive and change address coincide")
+    return res
+
+
+# ------------------------------------------------------------------------------- engine: checksum
+FOREIGN = [chr(c) for c in range(256) if chr(c) not in descref.INPUT_CHARSET] + ["€", "０", "٠"]
+
+
+def gen_checksum(tier, seed):
+    A = descref.INPUT_CHARSET
+    cases = [{"kind": "strings", "prefix": "", "tail": 0}, {"kind": "strings", "prefix": "", "tail": 1}]
+    cases += [{"kind": "strings", "prefix": c, "tail": 1} for c in A]
+    if tier == "thorough":
+        cases += [{"kind": "strings", "prefix": a + b, "tail": 1} for a in A for b in A]
+    # longer strings: every length 3..48 (all residues mod 3 of the class-symbol grouping), one string per length and per
+    # starting offset into the alphabet, so that every character occurs at every position of a group of three
+    cases += [{"kind": "rotations", "length": L} for L in range(3, 49)]
+    cases += [{"kind": "foreign", "template": t} for t in ("", "wsh()", "wsh(sortedmulti(1,[00000000/48h]x/0/*))")]
+    return cases
+
+
+def run_checksum(case):
+    from buidl.descriptor import calc_core_checksum
+
+    res = Res()
+    A = descref.INPUT_CHARSET
+    vc = {"engine": "checksum", "case": case}
+
+    def cmp(strings, cls):
+        n = 0
+        for s in strings:
+            got = attempt(calc_core_checksum, s)
+            exp = descref.descriptor_checksum(s)
+            if got != exp:
+                res.violation(f"C16/checksum/value/{cls}", {"engine": "checksum", "case": case, "string": s}, got, exp, "calc_core_checksum differs from Bitcoin Core's DescriptorChecksum")
+                return
+            n += 1
+        res.bulk(f"checksum==core[{cls}]", n, n)
+
+    if case["kind"] == "strings":
+        cmp([case["prefix"] + "".join(t) for t in itertools.product(A, repeat=case["tail"])], f"len={len(case['prefix']) + case['tail']}")
+    elif case["kind"] == "rotations":
+        L = case["length"]
+        cmp(["".join(A[(o + 7 * i) % 95] for i in range(L)) for o in range(95)], f"len%3={L % 3}")
+    else:
+        t = case["template"]
+        n = 0
+        for ch in FOREIGN:
+            for pos in sorted({0, len(t) // 2, len(t)}):
+                s = t[:pos] + ch + t[pos:]
+                got = attempt(calc_core_checksum, s)
+                if not (isinstance(got, Rejected) or got is None or got is False or got == ""):
+                    res.violation("C16/checksum/foreign-character-accepted", {"engine": "checksum", "case": case, "string": s}, got, "rejected", "a character outside Core's descriptor alphabet gets a checksum")
+                    return res
+                n += 1
+        res.bulk("foreign-character-rejected", n, n)
+    return res
+
+
+# ------------------------------------------------------------------------------- engine: index
+def gen_index(tier, seed):
+    accts = BOUNDARY + ([0, 1, MAXI - 1] if tier == "thorough" else [])
+    offs = BOUNDARY + ([0, 1, MAXI] if tier == "thorough" else [])
+    cases = []
+    for a in accts:
+        w = build_wallet(seed, "A", 2, "testnet", [a] * 3, tag=f"2of3/testnet/acct={a}/ver=std/path=h/pool=A")
+        for i in offs:
+            cases.append({"w": w, "index": i, "route": "ctor", "perm": None})
+    # per-cosigner account indexes on both sides of different byte boundaries, parse route
+    w = build_wallet(seed, "A", 2, "mainnet", [255, 65536, 2**24 - 1], tag="2of3/mainnet/acct=255,65536,16777215/ver=std/path=h/pool=A")
+    for i in (256, 2**24) if tier == "quick" else offs:
+        cases.append({"w": w, "index": i, "route": "parse", "perm": [2, 0, 1]})
+    return cases
+
+
+def run_index(case):
+    return run_address(case, "index")
+
+
+# ------------------------------------------------------------------------------- engine: ctor-checksum
+def cc_wallets(tier, seed):
+    return [
+        ("1of1-testnet", make_wallet(seed, "A", 1, 1, "testnet", "0", "std", "h")),
+        ("2of3-mainnet-apos-zpub", make_wallet(seed, "A", 2, 3, "mainnet", "mixed", "segwit:last", "apos")),
+    ] + ([("3of5-testnet-long", make_wallet(seed, "B", 3, 5, "testnet", "max-1", "std", "long"))] if tier == "thorough" else [])
+
+
+def gen_ctor_checksum(tier, seed):
+    cases = []
+    for wid, w in cc_wallets(tier, seed):
+        cases += [{"wid": wid, "w": w, "pos": pos} for pos in range(8)]
+        cases.append({"wid": wid, "w": w, "pos": "other"})
+    return cases
+
+
+def run_ctor_checksum(case):
+    from buidl.descriptor import P2WSHSortedMulti as P2
+
+    res = Res()
+    w, pos = case["w"], case["pos"]
+    m, recs = w["m"], w["recs"]
+    exp = expected_state(m, recs)
+    chk = exp["checksum"]
+    base = lib_records(recs)
+    vc = {"engine": "ctor-checksum", "case": case}
+
+    def must_accept(arg, what):
+        d = attempt(P2, m, base, arg)
+        got = d if isinstance(d, Rejected) else attempt(state_of, d)
+        if got != exp:
+            res.violation(f"C16/ctor-checksum/{what}-not-accepted", {"engine": "ctor-checksum", "case": case, "checksum": arg}, got if isinstance(got, Rejected) else got["str"], exp["str"], f"constructor with {what} does not give the reference descriptor")
+        else:
+            res.ok(f"{what}-accepted")
+
+    def must_reject(args, cls):
+        n = 0
+        for arg in args:
+            d = attempt(P2, m, base, arg)
+            if not (isinstance(d, Rejected) or d is None):
+                res.violation(f"C16/ctor-checksum/wrong-checksum-accepted/{cls}", {"engine": "ctor-checksum", "case": case, "checksum": arg}, str(d), "rejected", f"constructor accepts a checksum that is not Core's checksum of the descriptor ({chk})")
+                return
+            n += 1
+        res.bulk(f"wrong-checksum-rejected[{cls}]", n, n)
+
+    if pos == "other":
+        must_accept(chk, "correct-checksum")
+        must_accept("", "no-checksum")
+        must_reject([chk[:i] + chk[i + 1 :] for i in range(8)], "one-character-deleted")
+        must_reject([chk[:i] + c + chk[i:] for i in range(9) for c in descref.CHECKSUM_CHARSET], "one-character-inserted")
+    else:
+        must_reject([chk[:pos] + c + chk[pos + 1 :] for c in descref.INPUT_CHARSET if c != chk[pos]], "one-character-substituted")
+    return res
+
+
+
 # ------------------------------------------------------------------------------- engines
 def engines(tier, seed):
     return [
@@ -549,8 +1180,8 @@ def engines(tier, seed):
             gen_subst(False),
             run_subst(False),
             kind="E1",
-            rule="one case per character position of 'body#checksum' of 3 descriptors (thorough 7: 1-of-1 .. 6-of-6, both networks, h and ' markers, empty/long origin paths, 1- and 10-digit "
-            "account indexes): all 94 other characters of the 95-character descriptor alphabet are substituted and P2WSHSortedMulti.parse must raise; the '#' position is skipped (out of statement). "
+            rule="one case per character position of 'body#checksum' of 4 descriptors (thorough 8: 1-of-1 .. 6-of-6, both networks, h and ' markers, empty/long origin paths, 1- and 10-digit "
+            "account indexes; one 2-of-2 descriptor has its records in descending xpub order): all 94 other characters of the 95-character descriptor alphabet are substituted and P2WSHSortedMulti.parse must raise; the '#' position is skipped (out of statement). "
             "HDPublicKey.child is memoised by the harness (pure function; first call per distinct (parent, index) runs the real code). Non-trivial = the corrupted text is still a strictly "
             "well-formed descriptor, i.e. only the checksum comparison can reject it",
         ),
@@ -561,5 +1192,101 @@ def engines(tier, seed):
             kind="E1",
             chunk=1,
             rule="same sweep with the library untouched (no memoisation): the 1-of-1 descriptor in the quick tier, 1-of-1 + 1-of-2 (10-digit account index) in the thorough tier",
+        ),
+        Engine(
+            "spelling",
+            gen_spelling,
+            run_spelling,
+            kind="E1",
+            rule="key records that the constructor may accept in a non-Core spelling: fingerprint case {lower, UPPER, every-other-letter} x hardened marker {h, ', H} x path noise {none, 'm//', leading "
+            "space, trailing space, capital 'M'} on a 1-of-2 wallet with origin m/48h/1h/0h/2h (45) and with the empty origin 'm' (12) (thorough: also 2-of-3 mainnet); fingerprints fixed to "
+            "a1b2c3d4/0f9e8d7c/00c0ffee. Oracle: either the constructor rejects, or (a) the checksum is Core's checksum of the emitted body, (b) parse(str(d)) accepts and (c) reproduces the same "
+            "state, and (d) when only the fingerprint case deviates the state equals the reference descriptor with the fingerprint in lower case (Core prints HexStr). Spellings that merely differ from "
+            "Core's printed path form are not compared with Core. A failing combination is attributed to the single deviation that fails alone. HDPublicKey.child memoised by the harness. "
+            "Non-trivial = any deviation from Core's spelling",
+        ),
+        Engine(
+            "history",
+            gen_history,
+            lambda case: run_history(case, tier, seed),
+            kind="E2",
+            rule="explicit-state search over get_address call histories, every call compared with the reference: 'single' = one constructor-built 2-of-3 object, operations (index in {0,1,2^31-1}) x "
+            "{receive, change}, ALL sequences of length 3 (216; thorough also a parse()-built mainnet object with per-cosigner account indexes); 'multi' = three live objects over the same cosigner "
+            "xpubs - A (account 0, constructor), B (account 1, constructor; B.receive == A.change legitimately), P (account 0, parse() of a text with records in descending xpub order) - operations "
+            "(object, index in {0,1}, branch), ALL sequences of length 3 (1728; thorough length 4: 20736), fresh objects per sequence; 'real' = the library without memoisation, 1-of-1, "
+            "operations {0,1} x {receive, change}, all sequences of length 2 (thorough 3). One case per first operation (thorough multi: per first two). HDPublicKey.child memoised by the harness "
+            "except in 'real'. States = distinct histories, transitions = executed calls. Non-trivial = a call made after at least one earlier call",
+        ),
+        Engine(
+            "keyrecord",
+            gen_keyrecord,
+            run_keyrecord,
+            kind="E1",
+            rule="key record strings '[xfp/path]xpub/idx/*': 2 keys (thorough 6) x {testnet, mainnet} x all 5 version kinds (xpub/tpub + the four SLIP-132 kinds) x (origin-path style, account index) in "
+            "{h,',empty,long,mixed} x {0} + {h} x {1,5,2^31-2,2^31-1}: parse_full_key_record fields (xfp, path, xpub_parent, account_index, network, xpub_child = reference BIP32 public child with the "
+            "same version bytes), parse_partial_key_record and parse_any_key_record on the string without '/idx/*' (xfp, path, xpub, network), parse_any_key_record on the full string for the base "
+            "combination; plus the flow string -> parse_full_key_record -> P2WSHSortedMulti for 2-of-3 (thorough 1..3-of-3) wallets whose three records carry one kind (5) or three different kinds (3), "
+            "mixed path styles and account indexes, every supply order: state == reference. Non-trivial = every (function, string) pair / (wallet, order)",
+        ),
+        Engine(
+            "ties",
+            gen_ties,
+            run_ties,
+            kind="E1",
+            chunk=1,
+            rule="wallets in which one cosigner xpub occurs at several account indexes (equal sort keys): {X@0, X@2, Y@0} 2-of-3, {X@0, X@1} 1-of-2 (the change branch of the first record is the receive "
+            "branch of the second), {X@0, Zpub(X)@2, Y@0} (thorough: both networks, 3-of-4 {X@0,X@1,X@2,Y@0}); EVERY supply order through the constructor (thorough: also through parse() of the text "
+            "in that order). Checks: checksum == Core checksum of the emitted body; the object holds exactly the supplied records, xpub-ascending (constructor) / in text order (parse) - no order is "
+            "demanded among records with equal xpub; parse(str(d)) reproduces d; get_address(1, receive/change) == reference P2WSH of the sorted child keys (hence identical for all orders); "
+            "receive != change. Non-trivial = every (wallet, order)",
+        ),
+        Engine(
+            "slipmix",
+            gen_slipmix,
+            run_slipmix,
+            kind="E1",
+            rule="per-record version bytes: the FULL product of the 5 version kinds {xpub/tpub, ypub/upub, zpub/vpub, Ypub/Upub, Zpub/Vpub} over the records of 1-of-1, 1-of-2 and 2-of-3 wallets "
+            "(5 + 25 + 125; thorough also 2-of-4: 625) x {testnet, mainnet}, per-cosigner account indexes; every one of the n! supply orders: str/key_records/network/checksum == reference "
+            "(standard version bytes in the text, Core checksum, ascending standardised xpub). No elliptic-curve work. Non-trivial = wallets with at least one SLIP-132 key",
+        ),
+        Engine(
+            "xpubfields",
+            gen_xpubfields,
+            run_xpubfields,
+            kind="E1",
+            chunk=1,
+            rule="extended-key header fields: depth {0,1,254,255} x child number {0, 2^31-1, 2^31, 2^32-1} x parent fingerprint {00000000, ffffffff, filler} x {testnet, mainnet}, 1-of-2 wallets "
+            "(account indexes 0 and 2^31-2), xpub/tpub keys everywhere and a Zpub/Vpub first record on the filler fingerprint (thorough: everywhere): construct == reference, parse(text) == "
+            "descriptor; get_address(1, receive/change) == reference and receive != change on the 12 (depth, child) combinations with parent fingerprint 0 (thorough: all). Depth 255 is skipped "
+            "(children not serialisable, Core refuses to derive): not asserted. Non-trivial = every asserted wallet",
+        ),
+        Engine(
+            "checksum",
+            gen_checksum,
+            run_checksum,
+            kind="E1",
+            rule="calc_core_checksum as a function against the reference DescriptorChecksum: EVERY string of length 0, 1 and 2 (thorough: and 3) over the 95-character descriptor alphabet "
+            "(1 + 95 + 9025 (+ 857375)); for every length 3..48 the 95 strings s_o[i] = alphabet[(o + 7i) mod 95] (all three residues of the 3-character class grouping, every character at every "
+            "group position); every one of the 161 other code points < 256 plus 3 non-Latin-1 characters inserted at start / middle / end of 3 templates must be rejected. "
+            "Non-trivial = every string",
+        ),
+        Engine(
+            "index",
+            gen_index,
+            run_index,
+            kind="E1",
+            chunk=1,
+            rule="byte boundaries of the serialised child index: account index (all three cosigners) in {255, 256, 65535, 65536, 2^24-1, 2^24} x address index in the same set, full 6 x 6 product "
+            "(thorough: both sets + {0, 1, 2^31-2 | 2^31-1}) on one 2-of-3 testnet wallet, plus a mainnet wallet with per-cosigner account indexes (255, 65536, 2^24-1) through parse() of a permuted "
+            "text; same comparisons as the address engine (receive and change == reference, receive != change, no overlap over the index alphabet)",
+        ),
+        Engine(
+            "ctor-checksum",
+            gen_ctor_checksum,
+            run_ctor_checksum,
+            kind="E1",
+            rule="the constructor's checksum argument on 2 wallets (thorough 3): the reference checksum and the empty string (= none supplied) give the reference descriptor; every substitution of one "
+            "of the 8 characters by each of the 94 other characters of the descriptor alphabet, every single-character deletion and every insertion of a checksum-alphabet character must be rejected. "
+            "No elliptic-curve work",
         ),
     ]
